@@ -369,7 +369,10 @@ pub fn ordinary(rng: &mut Rng) -> (u16, Vec<u8>) {
                 }
             }
         }
-        5 => (0x7f00 + rng.below(4) as u16, { let n = rng.below(9) as usize; rng.bytes(n) }), // unknown, comprehension required
+        // unknown, comprehension required; one time in three a type at the edge of the comprehension-required
+        // range (0x0000..=0x7fff) or of the optional range
+        5 => (if rng.chance(1, 3) { *rng.pick(&[0x7fffu16, 0x7ffe, 0x8000, 0x8001, 0x0000, 0x0001, 0x4000, 0x3fff, 0xffff]) } else { 0x7f00 + rng.below(4) as u16 },
+              { let n = rng.below(9) as usize; rng.bytes(n) }),
         6 => (0xff00 + rng.below(4) as u16, { let n = rng.below(9) as usize; rng.bytes(n) }), // unknown, optional
         7 => (0x0006, { let n = rng.below(7) as usize; rng.bytes(n) }),                         // known type, arbitrary bytes
         8 => (rng.next() as u16 | 1, { let n = rng.below(40) as usize; rng.bytes(n) }),
